@@ -311,14 +311,14 @@ class NameBinding(Binding):
         """
         Does any reference to this name actually bind it
 
-        A name that is only loaded or declared global/nonlocal is not bound by this module.
+        A name that is only loaded, deleted or declared global/nonlocal is not bound by this module.
 
         :rtype: bool
 
         """
 
         for node in self.references:
-            if isinstance(node, ast.Name) and isinstance(node.ctx, ast.Load):
+            if isinstance(node, ast.Name) and isinstance(node.ctx, (ast.Load, ast.Del)):
                 continue
             if isinstance(node, (ast.Global, ast.Nonlocal)):
                 continue
